@@ -459,6 +459,20 @@ pub fn run(ctx: &mut Ctx) {
 	ctx.assume("serde_json is used as the reference the property names; floats are compared as f64 or after rounding to f32 (serde_json widens f32 to f64)");
 }
 
-pub fn replay(_family: &str, _case: &J) -> Result<(), String> {
-	Err("typed instances are recorded as Debug text; re-run the family with the same VERIF_SEED to reproduce".into())
+pub fn replay(family: &str, case: &J) -> Result<(), String> {
+	match family {
+		"T_typed_instances" => {
+			// the instance is rebuilt from serde_json's rendering (possible when it holds no non-finite float)
+			let r: Root = serde_json::from_value(case["serde_json"].clone()).map_err(|e| format!("UNSUPPORTED: the recorded rendering does not deserialize back ({e}); see the Debug text"))?;
+			datum_property(&r, non_finite_root(&r))
+		}
+		"F_isolated_floats" => {
+			let a = F64(f64::from_bits(case["f64_bits"].as_u64().ok_or("bad case")?));
+			let b = F32(f32::from_bits(case["f32_bits"].as_u64().ok_or("bad case")? as u32));
+			datum_property(&a, !a.0.is_finite())?;
+			datum_property(&b, !b.0.is_finite())?;
+			datum_property(&(a, b), !a.0.is_finite() || !b.0.is_finite())
+		}
+		_ => Err("UNSUPPORTED: component-type cases are recorded as Debug text; re-run the family with the same VERIF_SEED".into()),
+	}
 }
